@@ -366,6 +366,17 @@ pub fn gen_rp(r: &mut Rng, fam: Fam, typ: u8, big: bool) -> RP {
                 binary(r, false)
             };
             let payload = fix_payload_utf8(r, &props, payload);
+            let mut props = props;
+            if !payload.is_empty() && r.chance(1, 4) {
+                // correlation data cut from the payload's own bytes (a prefix, or all of it): the
+                // harness hands such fields to the crate as windows into one shared buffer
+                for (id, v) in props.iter_mut() {
+                    if *id == 0x09 {
+                        let k = if r.bool() { payload.len() } else { r.range(1, payload.len()) }.min(65_535);
+                        *v = PV::Bin(payload[..k].to_vec());
+                    }
+                }
+            }
             RP::Publish {
                 dup: r.bool(),
                 qos,
